@@ -398,6 +398,8 @@ def sym_range(*args):
         yield g  # one generic iteration
         rule.var = None
         return
+    if any(isinstance(a, SymInt) for a in args):
+        raise Unsupported("range() with symbolic bounds other than range(n)")
     yield from range(*args)
 
 
